@@ -19,7 +19,7 @@ def Q(checks, timeout=240, shards=1, **kw):
     return d
 
 
-HOOK_COMMITS = ["df50802"]
+HOOK_COMMITS = ["df50802", "215f985"]
 
 NOT_APPLICABLE = {}
 
@@ -168,5 +168,19 @@ PROPS = {
         technique="property-based testing: snapshot round trip against a model, fault injection (stop signals, crash-point enumeration inside the install), deterministic and racing overlapping readers",
         level_text="Randomised exploration of saver/receiver histories with exhaustive crash points inside each generated install.",
         level_note="Trusted: internal/model; crash model as in C04.",
+    ),
+    "C07": dict(
+        pkg="c07", level="exploration",
+        tests=[T("TestC07", Q(24, timeout=300, shards=4, shrinktime="30s"), Q(120, timeout=1500, shards=16, shrinktime="90s"))],
+        rule="Each case: a leader table with 0-60 generated pairs (values empty..3 KB; thorough also 256 KiB-2 MiB), a target server started with a generated MaxInMemLogSize (0 = unlimited, 1 MiB, 6 MiB, or "
+             "2*sum(first j record sizes)+slack so that the half-size batch threshold falls on record j, raised to twice the biggest record so the setting is operable), a target table with 0-5 unrelated pre-restore pairs; "
+             "source = backup file (real BackupServer.Backup over gRPC + backup.Restore through the target's Maintenance service, optionally with one flipped byte) or leader snapshot stream (real SnapshotServer.Stream + "
+             "worker recovery + Manager.Restore), optionally while a leader goroutine keeps writing a stamped key. Oracle: full Range of the restored table == captured model (nothing lost/altered/added, nothing of the old content), "
+             "follower leader index == leader index at capture, with writers content == model at exactly the declared index, corrupted file => error and table unchanged. "
+             "Non-trivial iff >=3 records AND (the batch threshold is crossed inside the stream OR the limit is 0). Distinct = sha256 of case JSON.",
+        assumptions=["MaxInMemLogSize is at least twice the biggest record (dragonboat rejects larger proposals permanently)", "single-node leader and target engines, in-process, in-memory file systems, real gRPC over loopback"],
+        technique="round-trip property-based testing on real engines (generated content x configuration), model comparison",
+        level_text="Randomised exploration of (content, configuration, source) triples on real engines with an exact content oracle.",
+        level_note="Trusted: model map; engines are single-node.",
     ),
 }
